@@ -9,7 +9,7 @@ from ..engine import Check
 from ..loader import AnalysisError
 from ..program import NotConst
 from ..recon import _own_nodes
-from ..rulelib import conds_sym, eval_conds, func_outcomes, reach_table
+from ..rulelib import split_alternatives, conds_sym, eval_conds, func_outcomes, reach_table
 
 LEVEL = "other"
 TECHNIQUE = ("static analysis: constant tables and XPath literals parsed into steps / predicate sets, decision table of the disk "
@@ -198,8 +198,10 @@ def run(chk: Check):
     attrs = set()
     for n in ast.walk(ictx.func):
         if isinstance(n, ast.Call) and isinstance(n.func, ast.Attribute) and n.func.attr == "get" and n.args:
-            t = R.expr(ictx, n.args[0])
-            if t[0] == "call" and t[1] == ".format" and S.is_const(t[2][0]):
+            t = R.expr(ictx, n.args[0], ictx.cfg.node_for(n))
+            if S.is_const(t) and isinstance(t[1], str):
+                attrs.add(t[1])  # the qualified name, however it was put together (format / f-string / helper)
+            elif t[0] == "call" and t[1] == ".format" and S.is_const(t[2][0]):
                 fmt = t[2][0][1]
                 try:
                     attrs.add(fmt.format(**ns))
@@ -216,25 +218,7 @@ def run(chk: Check):
         okm = v[0] == "sub" and v[1] == R.self_attr(oci.key, "references") and "fileRef" in S.show(v[2])
     chk.decide(ok_key and okm, "K-PROV", "ovf:disk-to-file", st[0] if st else ictx.func, "disk id -> href of the file the disk references")
     dctx = chk.func(OVF, "OVF.disks")
-    ys = [n for n in ast.walk(dctx.func) if isinstance(n, ast.Yield)]
-    table = {}
-    res_t = None
-    for y in ys:
-        t = R.expr(dctx, y.value, dctx.cfg.node_for(y))
-        conds = conds_sym(chk, dctx, y)
-        src = "disks" if t[0] == "sub" and t[1] == R.self_attr(oci.key, "_disks") else "references" if t[0] == "sub" and t[1] == R.self_attr(oci.key, "references") else "?"
-        for c, p in conds:
-            if c[0] == "call" and c[1] == ".startswith" and p:
-                table[c[2][1][1] if S.is_const(c[2][1]) else "?"] = src
-                res_t = c[2][0]
-        last = t[2] if t[0] == "sub" else None
-        oklast = last is not None and last[0] == "sub" and last[2] == S.C(-1) and last[1][0] == "call" and last[1][1] == ".split" and last[1][2][1] == S.C("/")
-        chk.decide(oklast, "K-PROV", f"ovf:reference-key:{src}", y, "the reference is the last path component of the host resource", found=S.show(last)[-80:] if last else "?")
-    chk.decide(table == {"/disk/": "disks", "/file/": "references"}, "K-DISPATCH", "ovf:host-resource-kinds", dctx.func,
-               "/disk/<id> resolves through the disk section, /file/<id> through the references", found=str(table))
-    okpre = res_t is not None and res_t[0] == "call" and res_t[1] == ".removeprefix" and res_t[2][1] == S.C("ovf:") and "HostResource" in S.show(res_t)
-    chk.decide(okpre, "K-PROV", "ovf:host-resource-prefix", dctx.func, "the optional ovf: prefix of rasd:HostResource is removed (prefix, not character set)",
-               found=S.show(res_t)[-120:] if res_t is not None else "?")
+    ovf_host_resources(chk, dctx, oci)
     outs = func_outcomes(chk, dctx)
     chk.decide(any(o[0] == "raise" for o in outs), "K-DISPATCH", "ovf:unknown-host-resource-raises", dctx.func, "an unknown host-resource form raises")
     fl = [l for l in dctx.loops if isinstance(l, ast.For)]
@@ -278,7 +262,12 @@ def run(chk: Check):
             t = R.expr(vctx, ys[0].value, vctx.cfg.node_for(ys[0]))
             conds = conds_sym(chk, vctx, ys[0])
             oky = "['location']" in S.show(t) or ".get(" in S.show(t) and "'location'" in S.show(t)
-            fmt_ok = any(".lower(" in S.show(c) and "'vdi'" in S.show(c) for c, p in conds if p)
+            # the format test by evaluation: yields for 'vdi' in any case, not for anything else
+            subj = [x[2][0] for c, p in conds for x in S.walk(c) if isinstance(x, tuple) and x and x[0] == "call" and x[1] in (".lower", ".upper", ".casefold") and x[2]]
+            fmt_ok = False
+            if subj:
+                tab = {v: eval_conds(conds, S.Valuation(1, override={subj[0]: v})) for v in ("VDI", "vdi", "Vdi", "VMDK", "vhd", "vdi2", "")}
+                fmt_ok = {k: bool(x) for k, x in tab.items()} == {"VDI": True, "vdi": True, "Vdi": True, "VMDK": False, "vhd": False, "vdi2": False, "": False}
             oky = oky and fmt_ok
         chk.decide(oky, "K-DISPATCH", "vbox:vdi-filter", ys[0] if ys else vctx.func, "location yielded for format == 'vdi' compared case-insensitively")
     # ------------------------------------------------------------------------------------------------ PVS
@@ -293,7 +282,11 @@ def run(chk: Check):
             t = R.expr(pctx, ys[0].value, pctx.cfg.node_for(ys[0]))
             conds = conds_sym(chk, pctx, ys[0])
             sysn = S.call(".find", [("iter", it, None), S.C("SystemName")])
-            ok = ok and t == ("attr", sysn, "text") and any(c == S.cmp_("isnot", sysn, S.C(None)) and p for c, p in conds)
+            # yielded iff the SystemName child exists (an Element must be tested with `is None` / `is not None`, never by truthiness)
+            named = [x for c, _p in conds for x in S.walk(c) if isinstance(x, tuple) and x and x[0] == "cmp" and x[1] in ("is", "isnot") and {x[2], x[3]} == {sysn, S.C(None)}]
+            present = eval_conds(conds, S.Valuation(1, override={sysn: 12345}))
+            absent = eval_conds(conds, S.Valuation(1, override={sysn: None}))
+            ok = ok and t == ("attr", sysn, "text") and bool(named) and bool(present) and not absent
     chk.decide(ok, "K-GRAMMAR", "pvs:hdd-system-name", pctx.func, "every .//Hdd contributes the text of its SystemName child, tested with `is not None`")
     chk.require("K-GRAMMAR", 10)
     chk.require("K-DISPATCH", 4)
@@ -321,3 +314,55 @@ def _collected(chk: Check, ctx):
         if t[0] == "comp":
             out.append((n, t[2], conds_sym(chk, ctx, n) + [(c, True) for c in t[4]]))
     return out
+
+
+def ovf_host_resources(chk: Check, dctx, oci):
+    """OVF.disks: how a rasd:HostResource text is resolved, decided by evaluating the yields' conditions and look-up keys on
+    concrete texts (string methods are interpreted): an optional `ovf:` PREFIX is removed, `/disk/<id>` goes through the disk
+    section, `/file/<id>` through the file references, the key is the last path component, anything else raises."""
+    R = chk.R
+    DISKS, REFS = R.self_attr(oci.key, "_disks"), R.self_attr(oci.key, "references")
+    ys = [n for n in ast.walk(dctx.func) if isinstance(n, ast.Yield)]
+    sites = []
+    for y in ys:
+        t = R.expr(dctx, y.value, dctx.cfg.node_for(y))
+        for extra, alt in split_alternatives(t):
+            sites.append((y, alt, conds_sym(chk, dctx, y) + [(c, p) for c, p in extra]))
+    raises = [n for n in _own_nodes(dctx.func) if isinstance(n, ast.Raise)]
+    rconds = [conds_sym(chk, dctx, r) for r in raises]
+    texts = [x for _y, t, cs in sites for c, _p in cs for x in S.walk(c) if isinstance(x, tuple) and x and x[0] == "attr" and x[2] == "text"]
+    if not texts or not sites:
+        chk.undecided("K-DISPATCH", "ovf:host-resource-kinds", dctx.func, "cannot find the host resource text in the conditions of the yields")
+        return
+    RES = texts[0]
+    chk.decide("HostResource" in S.show(RES), "K-PROV", "ovf:host-resource-element", dctx.func, "the text resolved is that of the rasd:HostResource child", found=S.show(RES)[-120:])
+    probes = {"ovf:/disk/vmdisk1": ("disks", "vmdisk1"), "/disk/vmdisk1": ("disks", "vmdisk1"), "ovf:/file/file7": ("references", "file7"),
+              "/file/file7": ("references", "file7"), "ovf:/disk/a/b": ("disks", "b"), "ovf:/other/x": ("raise", None), "": ("raise", None),
+              "vo:/disk/x": ("raise", None), "fvo:/file/y": ("raise", None), "ovf:disk/x": ("raise", None)}
+    bad, badpre, badkey = [], [], []
+    for text, (want_src, want_key) in probes.items():
+        val = S.Valuation(1, override={RES: text})
+        hits = []
+        for y, t, cs in sites:
+            if eval_conds(cs, val):
+                src = "disks" if t[0] == "sub" and t[1] == DISKS else "references" if t[0] == "sub" and t[1] == REFS else "?"
+                try:
+                    key = S.ev(t[2], val) if t[0] == "sub" else None
+                except S.EvalError:
+                    key = "?"
+                hits.append((src, key))
+        raised = any(eval_conds(cs, val) for cs in rconds)
+        got = hits[0] if len(hits) == 1 else ("raise", None) if not hits and raised else ("?", hits)
+        if got != (want_src, want_key):
+            msg = f"{text!r}: {got}, specified {(want_src, want_key)}"
+            if text.startswith(("vo:", "fvo:")):
+                badpre.append(msg)
+            elif got[0] == want_src:
+                badkey.append(msg)
+            else:
+                bad.append(msg)
+    chk.decide(not bad, "K-DISPATCH", "ovf:host-resource-kinds", dctx.func,
+               "/disk/<id> resolves through the disk section, /file/<id> through the references, other forms raise" if not bad else "; ".join(bad[:3]))
+    chk.decide(not badkey, "K-PROV", "ovf:reference-key", dctx.func, "the reference is the last path component of the host resource" if not badkey else "; ".join(badkey[:3]))
+    chk.decide(not badpre, "K-PROV", "ovf:host-resource-prefix", dctx.func,
+               "the optional ovf: prefix of rasd:HostResource is removed (prefix, not character set)" if not badpre else "; ".join(badpre[:3]))
